@@ -20,3 +20,5 @@ const (
 )
 
 func verifSched(ev int, target *Thread) {}
+
+func verifClock() (uint64, bool) { return 0, false }
